@@ -211,6 +211,9 @@ func (d *Decoder) DecodeContext(ctx context.Context, v interface{}) error {
 }
 
 func (d *Decoder) DecodeWithOption(v interface{}, optFuncs ...DecodeOptionFunc) error {
+	// the options (and the context) of a call do not outlive it: a later
+	// Decode on the same Decoder starts from none
+	defer func() { *d.s.Option = decoder.Option{} }()
 	header := (*emptyInterface)(unsafe.Pointer(&v))
 	typ := header.typ
 	ptr := uintptr(header.ptr)
